@@ -1520,6 +1520,8 @@ def dict_method(it, fr, d, name, args, kw):
     args = [fr.split(a) for a in args]
     if name in ('items', 'keys', 'values') and isinstance(d, SDict):
         return SView(d, name)
+    if name in ('items', 'keys', 'values') and isinstance(d, dict) and not args:
+        return list(getattr(d, name)())
     if name == 'get':
         k = args[0]
         try:
@@ -1671,6 +1673,11 @@ def set_method(it, fr, s, name, args, kw):
 def concrete_str_method(it, fr, s, name, args, kw):
     args = [fr.split(a) for a in args]
     if name == 'join':
+        from .strauto import SplitWS, filter_chars
+        if isinstance(args[0], SplitWS):
+            if s == '':
+                return filter_chars(it, args[0].src, lambda c: z3.Not(CT.cp('space', c)))
+            raise Unsupported('join of a whitespace split with a non-empty separator')
         parts = fr.iterate(args[0])
         out = []
         for i, p in enumerate(parts):
